@@ -427,3 +427,116 @@ def histogram(xs):
     for x in xs:
         h[str(x)] = h.get(str(x), 0) + 1
     return dict(sorted(h.items(), key=lambda kv: (len(kv[0]), kv[0])))
+
+
+# ---------------------------------------------------------------- independent decoder (README layout) for direct checks
+class DecodeError(Exception):
+    pass
+
+
+def dec_num(p):
+    if not p:
+        raise DecodeError('empty number')
+    t, r = p[0], p[1:]
+    if t == N_ZERO and not r:
+        return ('u', 0)
+    if t == N_NAN and not r:
+        return ('d', 0x7FF8000000000000)
+    if t == N_INF and not r:
+        return ('d', 0x7FF0000000000000)
+    if t == N_NEG_INF and not r:
+        return ('d', 0xFFF0000000000000)
+    if t == N_INT and len(r) in (1, 2, 4, 8):
+        return ('i', int.from_bytes(r, 'big', signed=True))
+    if t == N_UINT and len(r) in (1, 2, 4, 8):
+        return ('u', int.from_bytes(r, 'big'))
+    if t == N_FLOAT and len(r) == 8:
+        return ('d', int.from_bytes(r, 'big'))
+    raise DecodeError('bad number')
+
+
+def dec_entry(j, payload):
+    ty, ln = j & 0x70000000, j & 0x0FFFFFFF
+    if len(payload) != ln:
+        raise DecodeError('payload length')
+    if ty == J_NULL:
+        return ('n',)
+    if ty == J_TRUE:
+        return ('b', True)
+    if ty == J_FALSE:
+        return ('b', False)
+    if ty == J_STRING:
+        return ('s', bytes(payload))
+    if ty == J_NUMBER:
+        return dec_num(payload)
+    if ty == J_CONTAINER:
+        return dec_container(payload)
+    raise DecodeError('entry type')
+
+
+def dec_container(b):
+    """strict: every nested length must be exact and nothing may trail"""
+    if len(b) < 4:
+        raise DecodeError('short')
+    h = struct.unpack('>I', b[:4])[0]
+    ty, n = h & 0xE0000000, h & 0x1FFFFFFF
+    if ty == ARRAY_TAG:
+        if len(b) < 4 + 4 * n:
+            raise DecodeError('short entries')
+        js = struct.unpack('>%dI' % n, b[4:4 + 4 * n])
+        off = 4 + 4 * n
+        out = []
+        for j in js:
+            ln = j & 0x0FFFFFFF
+            out.append(dec_entry(j, b[off:off + ln]))
+            off += ln
+        if off != len(b):
+            raise DecodeError('trailing bytes')
+        return ('a', out)
+    if ty == OBJECT_TAG:
+        if len(b) < 4 + 8 * n:
+            raise DecodeError('short entries')
+        js = struct.unpack('>%dI' % (2 * n), b[4:4 + 8 * n])
+        off = 4 + 8 * n
+        keys = []
+        for j in js[:n]:
+            if j & 0x70000000 != J_STRING:
+                raise DecodeError('key type')
+            ln = j & 0x0FFFFFFF
+            keys.append(bytes(b[off:off + ln]))
+            off += ln
+        out = []
+        for k, j in zip(keys, js[n:]):
+            ln = j & 0x0FFFFFFF
+            out.append((k, dec_entry(j, b[off:off + ln])))
+            off += ln
+        if off != len(b):
+            raise DecodeError('trailing bytes')
+        if any(keys[i] >= keys[i + 1] for i in range(len(keys) - 1)):
+            raise DecodeError('keys not sorted/unique')
+        return ('o', out)
+    raise DecodeError('header')
+
+
+def dec(b):
+    """canonical document -> value; raises DecodeError if the bytes are not a canonical JSONB document"""
+    b = bytes(b)
+    if len(b) < 4:
+        raise DecodeError('short')
+    h = struct.unpack('>I', b[:4])[0]
+    if h == SCALAR_TAG:
+        if len(b) < 8:
+            raise DecodeError('short scalar')
+        j = struct.unpack('>I', b[4:8])[0]
+        if j & 0x70000000 == J_CONTAINER:
+            raise DecodeError('container entry under scalar header')
+        v = dec_entry(j, b[8:])
+    else:
+        v = dec_container(b)
+    if enc(v) != b:
+        raise DecodeError('not the canonical encoding of its value')
+    return v
+
+
+def unhexarg(s):
+    return b'' if s == '-' else bytes.fromhex(s)
